@@ -40,6 +40,8 @@ class Ctx:
         self.rules_applied: Dict[str, str] = {}
         self.only_rule: Optional[str] = None
         self.extra_coverage: Dict[str, object] = {}
+        self._seen_ok: Dict[tuple, dict] = {}
+        self._seen_fail = set()
 
     # -- engine handles ---------------------------------------------------
     @property
@@ -68,12 +70,21 @@ class Ctx:
         self.rules_applied[rid] = text
 
     def ok(self, rule: str, construct: str, what: str, loc: str = ''):
-        self.obligations.append({'rule': rule, 'construct': construct, 'location': loc, 'what': what,
+        k = (rule, construct, loc, what)
+        if k in self._seen_ok:
+            self._seen_ok[k]['instances'] = self._seen_ok[k].get('instances', 1) + 1
+            return
+        self._seen_ok[k] = {}
+        self.obligations.append(self._seen_ok[k])
+        self._seen_ok[k].update({'rule': rule, 'construct': construct, 'location': loc, 'what': what,
                                  'discharged': True})
 
     def fail(self, rule: str, construct: str, loc: str, message: str, key: Optional[str] = None,
              detail: Optional[dict] = None):
         k = key or f'{rule}::{construct}'
+        if (k, loc, message) in self._seen_fail:
+            return
+        self._seen_fail.add((k, loc, message))
         self.obligations.append({'rule': rule, 'construct': construct, 'location': loc, 'what': message,
                                  'discharged': False, 'key': k})
         self.findings.append(Finding(rule, construct, loc, message, k, detail))
